@@ -227,6 +227,9 @@ func (g *gen) wildStmt() {
 		g.newVar(TPS, "ident("+s2+".Pop())")
 		g.feat("generic-type")
 	case 8:
+		if g.off("closure-recursion") {
+			return
+		}
 		r := g.fresh()
 		g.emit("var %s Rec = func(rr Rec, ss string) string {", r)
 		g.emit("\tif len(ss) > 8 {")
